@@ -5,6 +5,7 @@ import TinsModel.Dns.Oracle
 import TinsModel.Dns.SoaLemmas
 import TinsModel.Dns.EditAny
 import TinsModel.Dns.GetSound
+import TinsModel.Dns.CompressMsg
 /-
   Property C10 — DNS messages stay coherent under parsing, editing and name compression.
   Only the property theorems live here; the model is `TinsModel/Dns/Model.lean`, the specification
@@ -615,19 +616,84 @@ def sections_refine_compressed : Prop :=
     ∃ m0 m, parse (refCompress hdr S0) = .ok m0 ∧ runEdits m0 es = .ok m ∧
       observe m = .ok (expected (es.foldl specEdit S0))
 
-/-- PROVED: `sections_refine_compressed` for every content `S0` whose compressed encoding is accepted, well-formed and
-    read back as `S0` — three decidable facts about the INITIAL message only (a reference-compressor correctness
-    statement, evaluated by the kernel on the instance below and by the run-time oracle on every generated message);
-    everything about the edits, the pointer rewriting and the re-parse is `sections_refine_wf`. -/
-theorem sections_refine_compressed_partial (hdr : Bytes) (S0 : Sections) (es : List Edit) {m0 : Msg}
-    (_hp : parse (refCompress hdr S0) = .ok m0) (hwf : wfMsg m0 = true) (hobs : observe m0 = .ok (expected S0))
-    (he : ∀ e ∈ es, e.legal = true) (hc : countSum m0 + es.length < 65536)
+/-- the same reduction for ANY compressor: if the initial message is accepted, accepted by `wfMsg` and read back as
+    `S0`, every legal edit history is observed as the edited content (everything about the edits, the pointer rewriting
+    and the re-parse is `sections_refine_wf`) -/
+theorem sections_refine_of_wf (S0 : Sections) (es : List Edit) {m0 : Msg} (hwf : wfMsg m0 = true)
+    (hobs : observe m0 = .ok (expected S0)) (he : ∀ e ∈ es, e.legal = true) (hc : countSum m0 + es.length < 65536)
     (hsz : m0.recs.length + 12 + (es.map editSize).sum ≤ 16384) :
     ∃ m, runEdits m0 es = .ok m ∧ observe m = .ok (expected (es.foldl specEdit S0)) ∧ parse (serialize m) = .ok m := by
   obtain ⟨O0, m, h0, h1, h2, h3, _⟩ := sections_refine_wf hwf es he hc hsz
   rw [hobs] at h0
   cases h0
   exact ⟨m, h1, by rw [← foldl_obsEdit_expected]; exact h2, h3⟩
+
+theorem short_of_shortNames {S : Sections} (h : shortNames S = true) : S.Short := by
+  simp only [shortNames, Bool.and_eq_true, List.all_eq_true, decide_eq_true_eq, List.mem_append] at h
+  have hr : ∀ r : SRec, (r ∈ S.an ∨ r ∈ S.au) ∨ r ∈ S.ad → r.short = true := by
+    intro r hm
+    have := h.2 r hm
+    simp only [SRec.short, Bool.and_eq_true, decide_eq_true_eq]
+    refine ⟨this.1, ?_⟩
+    have h2 := this.2
+    cases hd : r.data with
+    | a _ => rfl
+    | aaaa _ => rfl
+    | raw _ => rfl
+    | name n => rw [hd] at h2; simpa [SData.short] using h2
+    | mx _ n => rw [hd] at h2; simpa [SData.short] using h2
+    | soa m rn _ => rw [hd] at h2; simpa [SData.short] using h2
+  exact ⟨h.1, fun r hm => hr r (Or.inl (Or.inl hm)), fun r hm => hr r (Or.inl (Or.inr hm)), fun r hm => hr r (Or.inr hm)⟩
+
+theorem wireSections_specEdit (S : Sections) (e : Edit) :
+    (wireSections (specEdit S e)).length = (wireSections S).length + editSize e := by
+  cases e with
+  | query q =>
+    simp only [specEdit, Sections.addQ, wireSections, wireQs_append, wireQs_cons, editSize, List.length_append]
+    simp [wireQs]; omega
+  | record sec r txt =>
+    cases sec <;>
+      simp only [specEdit, Sections.add, wireSections, wireRecs_append, wireRecs_cons, editSize, List.length_append] <;>
+      (simp [wireRecs]; omega)
+
+theorem wireSections_foldl : ∀ (es : List Edit) (S : Sections),
+    (wireSections (es.foldl specEdit S)).length = (wireSections S).length + (es.map editSize).sum
+  | [], _ => by simp
+  | e :: es, S => by
+    rw [List.foldl_cons, wireSections_foldl es, wireSections_specEdit, List.map_cons, List.sum_cons]; omega
+
+/-- **sections_refine_compressed holds**: for EVERY legal content (names of at most 31 labels), the compressed
+    reference encoding is accepted and well-formed (`refCompress_wf`: the suffix-table invariant of the compressor),
+    and every legal edit history on it is observed as the edited content. -/
+theorem sections_refine_compressed_holds : sections_refine_compressed := by
+  intro hdr S0 es hh hl hsn he hc hsz
+  obtain ⟨m0, L0, hp, hw, v1, v2, v3, v4, ⟨c1, c2, c3, c4⟩, hlen⟩ :=
+    refCompress_wf hh hl (small_of_total (by omega)) (short_of_shortNames hsn)
+  have hcnt : countSum m0 = total S0 := by unfold countSum total; omega
+  have hsize : m0.recs.length + 12 + (es.map editSize).sum ≤ 16384 := by
+    have h1 := wireSections_foldl es S0
+    simp only [refEncode, List.length_append, be16_length, hh] at hsz
+    omega
+  obtain ⟨m, L, h1, w, o, _⟩ := runEdits_wf es m0 L0 hw he (by omega) hsize
+  refine ⟨m0, m, hp, h1, ?_⟩
+  have hobs : obsOf m0 L0 = expected S0 := by
+    simp only [obsOf, expected, v1, v2, v3, v4, c1, c2, c3, c4]
+  rw [observe_wf w, o, hobs, foldl_obsEdit_expected]
+
+/-- … and re-parsing the serialization of the edited object gives the same object -/
+theorem reparse_refCompress {hdr : Bytes} (hh : hdr.length = 4) {S0 : Sections} (hl : S0.Legal) (hsn : shortNames S0 = true)
+    (es : List Edit) (he : ∀ e ∈ es, e.legal = true) (hc : total S0 + es.length < 65536)
+    (hsz : (refEncode hdr (es.foldl specEdit S0)).length < 16384) :
+    ∃ m0 m, parse (refCompress hdr S0) = .ok m0 ∧ runEdits m0 es = .ok m ∧ parse (serialize m) = .ok m := by
+  obtain ⟨m0, L0, hp, hw, _, _, _, _, ⟨c1, c2, c3, c4⟩, hlen⟩ :=
+    refCompress_wf hh hl (small_of_total (by omega)) (short_of_shortNames hsn)
+  have hsize : m0.recs.length + 12 + (es.map editSize).sum ≤ 16384 := by
+    have h1 := wireSections_foldl es S0
+    simp only [refEncode, List.length_append, be16_length, hh] at hsz
+    omega
+  obtain ⟨m, L, h1, w, _, c⟩ := runEdits_wf es m0 L0 hw he (by unfold countSum total at *; omega) hsize
+  unfold countSum total at *
+  exact ⟨m0, m, hp, h1, parse_of_layout w.lay w.hdr (by omega) (by omega) (by omega) (by omega)⟩
 
 /-- an instance (evaluated by the kernel): question + compressed NS/SOA authority + MX additional, then an answer, a
     question and an authority record are inserted -/
@@ -645,7 +711,7 @@ def exEdits : List Edit :=
 
 example : (refCompress [0, 7, 0x81, 0x80] exS0).length < (refEncode [0, 7, 0x81, 0x80] exS0).length := by decide +kernel
 
-/-- the hypotheses of `sections_refine_compressed_partial` hold for the instance … -/
+/-- the instance is well-formed and read back (what `refCompress_wf` proves for every content) … -/
 example : (parse (refCompress [0, 7, 0x81, 0x80] exS0) >>= fun m0 => .ok (wfMsg m0, observe m0 == .ok (expected exS0))) =
     .ok (true, true) := by decide +kernel
 
